@@ -70,6 +70,11 @@ type SugarDB struct {
 		embedded   internal.ConnectionInfo               // Information for the embedded connection.
 	}
 
+	// commandLock is held while a data command executes, so that every command is atomic with respect to
+	// every other client's commands (a handler performs several keyspace steps: read, compute, write), and
+	// while the state is copied for a snapshot or a log rewrite.
+	commandLock sync.Mutex
+
 	// Global read-write mutex for entire store.
 	storeLock *sync.RWMutex
 
